@@ -19,22 +19,21 @@ pub struct PFile {
 pub struct PInst {
     pub exp: String,
     pub groups: String,
-    pub oti: String,
     pub files: Vec<PFile>,
 }
 
 pub fn parse_iline(l: &str) -> Option<PInst> {
     let t: Vec<&str> = l.split(' ').collect();
-    if t.len() < 7 || t[0] != "I" {
+    if t.len() < 4 || t[0] != "I" {
         return None;
     }
-    let n: usize = t[6].parse().ok()?;
-    if t.len() != 7 + 12 * n {
+    let n: usize = t[3].parse().ok()?;
+    if t.len() != 4 + 12 * n {
         return None;
     }
     let mut files = Vec::new();
     for i in 0..n {
-        let f = &t[7 + 12 * i..7 + 12 * (i + 1)];
+        let f = &t[4 + 12 * i..4 + 12 * (i + 1)];
         if f[0] != "F" {
             return None;
         }
@@ -43,7 +42,50 @@ pub fn parse_iline(l: &str) -> Option<PInst> {
             md5: f[7].into(), oti: f[8].into(), cc: f[9].into(), etag: f[10].into(), groups: f[11].into(),
         });
     }
-    Some(PInst { exp: t[1].into(), groups: t[4].into(), oti: t[5].into(), files })
+    Some(PInst { exp: t[1].into(), groups: t[2].into(), files })
+}
+
+/// The compared line shows the values as ANNOUNCED where the independent reader's value differs from them exactly by the
+/// XML 1.0 normalisation of literally written TAB / LF / CR (finding fdtabs-1, reported by `check_content` as an oracle
+/// class): the correspondence stays about the sender's abstract instance, the finding stays an oracle matter.
+pub fn raw_line(eng: &FdtEngine, line: &str) -> String {
+    let cfg = match eng.cfg.as_ref() {
+        Some(c) => c,
+        None => return line.to_string(),
+    };
+    let mut t: Vec<String> = line.split(' ').map(|x| x.to_string()).collect();
+    if t.len() < 4 || t[0] != "I" {
+        return line.to_string();
+    }
+    let n: usize = match t[3].parse() {
+        Ok(n) => n,
+        Err(_) => return line.to_string(),
+    };
+    if t.len() != 4 + 12 * n {
+        return line.to_string();
+    }
+    let cg: Vec<String> = cfg.groups.clone().unwrap_or_default();
+    if t[2] != list_hx(&cg) && t[2] == list_hx(&cg.iter().map(|x| norm_text(x)).collect::<Vec<_>>()) {
+        t[2] = list_hx(&cg);
+    }
+    for i in 0..n {
+        let b = 4 + 12 * i;
+        let ob = match t[b + 1].parse::<u128>().ok().and_then(|toi| eng.objs.get(&toi)) {
+            Some(o) => o,
+            None => continue,
+        };
+        let fix = |tok: &mut String, orig: String, normed: String| {
+            if *tok != orig && *tok == normed {
+                *tok = orig;
+            }
+        };
+        fix(&mut t[b + 5], hx(&ob.ctype), hx(&norm_attr(&ob.ctype)));
+        fix(&mut t[b + 7], opt_hx(&ob.md5), opt_hx(&ob.md5.as_ref().map(|x| norm_attr(x))));
+        fix(&mut t[b + 10], opt_hx(&ob.etag), opt_hx(&ob.etag.as_ref().map(|x| norm_attr(x))));
+        let g = ob.groups.clone().unwrap_or_default();
+        fix(&mut t[b + 11], list_hx(&g), list_hx(&g.iter().map(|x| norm_text(x)).collect::<Vec<_>>()));
+    }
+    t.join(" ")
 }
 
 /// the OTI the object is really sent with (override or session default, Z = number of source blocks)
@@ -69,27 +111,6 @@ pub fn oti_tokens(o: &OtiSpec) -> Vec<String> {
         _ => "~".to_string(),
     };
     vec![o.enc.to_string(), o.inst.to_string(), o.b.to_string(), o.e.to_string(), (o.b as u64 + o.p as u64).to_string(), ssi]
-}
-
-/// resolution as RFC 6726 readers do it: the File element's FEC-OTI attributes when it carries an encoding id,
-/// else the FDT-Instance's; the scheme-specific info only counts for schemes that define one
-pub fn resolve(file: &str, fdt: &str) -> Vec<String> {
-    let split = |s: &str| -> Vec<String> {
-        if s == "~" {
-            vec!["~".to_string(); 6]
-        } else {
-            s.split(',').map(|x| x.to_string()).collect()
-        }
-    };
-    let (f, d) = (split(file), split(fdt));
-    if f.len() != 6 || d.len() != 6 {
-        return vec!["?".into()];
-    }
-    let mut r = if f[0] != "~" { f } else { d };
-    if !["1", "2", "6"].contains(&r[0].as_str()) {
-        r[5] = "~".into();
-    }
-    r
 }
 
 /// what a conformant XML 1.0 reader makes of a string written literally into an attribute value (§2.11 + §3.3.3)
@@ -175,7 +196,7 @@ pub fn check_content(eng: &FdtEngine, what: &str, line: &str, t_pub: u64, snaps:
         cmp("attr-cache", &f.cc, cc_token(&ob.cc, t_pub), None);
         let eff = effective_oti(cfg, ob);
         let want = oti_tokens(&eff);
-        let got = resolve(&f.oti, &p.oti);
+        let got: Vec<String> = if f.oti == "~" { vec!["~".to_string(); 6] } else { f.oti.split(',').map(|x| x.to_string()).collect() };
         if got != want {
             let class = if eff.enc == 1 && got[..5] == want[..5] { "attr-oti-raptor-z" } else { "attr-oti" };
             o.fail(class, &format!("{}: TOI {} FEC OTI resolved from the FDT {:?} != OTI the object is sent with {:?}", what, toi, got, want));
